@@ -81,4 +81,73 @@ theorem scale_lower (n d k e : Nat) (_hd : 0 < d) (h : n < 2 ^ e * d) (hP : 2 ^ 
   have := (Nat.pow_lt_pow_iff_right (a := 2) (by omega)).mp h3
   omega
 
+/-- every scale the search passed over was insufficient: the scale found is minimal -/
+theorem fracBitsAux_min (n d : Nat) : ∀ fuel k j, k ≤ j → j < fracBitsAux n d fuel k →
+    ¬ 2 ^ 52 * d ≤ n * 2 ^ j := by
+  intro fuel
+  induction fuel with
+  | zero => intro k j hk hj; simp [fracBitsAux] at hj; omega
+  | succ f ih =>
+    intro k j hk hj
+    unfold fracBitsAux at hj
+    split at hj
+    · omega
+    · rename_i hnot
+      by_cases e : j = k
+      · subst e; exact hnot
+      · exact ih (k + 1) j (by omega) hj
+
+theorem fracBits_min (n d j : Nat) (hj : j < fracBits n d) : ¬ 2 ^ 52 * d ≤ n * 2 ^ j :=
+  fracBitsAux_min n d 1100 0 j (Nat.zero_le _) hj
+
+theorem fracBitsAux_bound (n d : Nat) : ∀ fuel k, fracBitsAux n d fuel k ≤ k + fuel := by
+  intro fuel
+  induction fuel with
+  | zero => intro k; simp [fracBitsAux]
+  | succ f ih =>
+    intro k
+    unfold fracBitsAux
+    split
+    · omega
+    · have := ih (k + 1); omega
+
+/-- the scale found is sufficient unless the fuel ran out -/
+theorem fracBits_ok_or (n d : Nat) : 2 ^ 52 * d ≤ n * 2 ^ fracBits n d ∨ fracBits n d = 1100 := by
+  rcases fracBitsAux_spec n d 1100 0 with h | h
+  · left; exact h
+  · right; unfold fracBits; omega
+
+theorem fracBits_bound (n d : Nat) : fracBits n d ≤ 1100 := by
+  have := fracBitsAux_bound n d 1100 0; unfold fracBits; omega
+
+/-- at a tie the rounded quotient is even -/
+theorem roundDiv_tie_even (n d k : Nat) (hd : 0 < d) :
+    (2 * (roundDiv n d k * d) = 2 * (n * 2 ^ k) + d → roundDiv n d k % 2 = 0) ∧
+    (2 * (n * 2 ^ k) = 2 * (roundDiv n d k * d) + d → roundDiv n d k % 2 = 0) := by
+  unfold roundDiv
+  simp only []
+  generalize n * 2 ^ k = N
+  have h := Nat.div_add_mod N d
+  have hr := Nat.mod_lt N hd
+  rw [Nat.mul_comm] at h
+  have hs : (N / d + 1) * d = N / d * d + d := Nat.succ_mul _ _
+  split
+  · generalize N / d * d = Q at *; omega
+  · split
+    · rw [hs]; generalize N / d * d = Q at *; omega
+    · split
+      · rename_i he; generalize N / d * d = Q at *; omega
+      · rename_i he; rw [hs]; generalize N / d * d = Q at *; omega
+
+/-- the rounded quotient is the floor or the floor plus one -/
+theorem roundDiv_floor (n d k : Nat) :
+    n * 2 ^ k / d ≤ roundDiv n d k ∧ roundDiv n d k ≤ n * 2 ^ k / d + 1 := by
+  unfold roundDiv
+  simp only []
+  split
+  · omega
+  · split
+    · omega
+    · split <;> omega
+
 end Gedcom.F64
